@@ -122,7 +122,10 @@ def run(ctx):
                 exp_out, exp_err = expected_for(forest, c["roots"])
             ctx.count((c["kind"], tuple(c["args"]), c["data"]), c["kind"] == "files0" or (c["roots"] and len(c["roots"]) >= 2),
                       ["kind=" + c["kind"], "error=%d" % exp_err, "diag=%d" % c["diag"]])
-            ok = ok_model and out == exp_out and (code != 0) == exp_err and (bool(err) == (exp_err or c["diag"]))
+            # the statement fixes the status for starting points that cannot be examined, not for a diagnosed empty name (0 here, pinned by
+            # the repository's test files0_pipe_double_nul; 1 in GNU): with an empty name in the list only the error case is constrained
+            code_ok = (code != 0) if exp_err else (code in (0, 1) if c["diag"] else code == 0)
+            ok = ok_model and out == exp_out and code_ok and (bool(err) == (exp_err or c["diag"]))
             if not ok:
                 bad.append((c, code, out, err, exp_out, exp_err, ok_model))
         kc.argv_not_utf8_find(ctx, "C18", forest.dir, "starting-point")
